@@ -186,7 +186,82 @@ def c06(tier):
     return c
 
 
-CHECKS = {"C06": c06, "C09": c09, "C19": c19, "C16": c16, "C13": c13, "C14": c14, "C15": c15, "C05": c05, "C12": c12, "C01": c01, "C02": c02, "C03": c03, "C04": c04, "C08": c08, "C10": c10}
+def c18(tier):
+    import json, re
+    c = _topo("C18", 18, tier, 80, 2400)
+    c.level = "fault_enumeration"
+    c.rule = ("one evaluation = one run of 3-8 snap_load ops; each op extracts nothing new but picks one bundled snapshot (42 Linux sysfs/procfs trees, "
+              "29 x86 CPUID dumps, 2 x86+linux pairs; uniformly), one applicable HWLOC_COMPONENTS selection (linux,stop | x86,stop | for pairs also "
+              "x86,linux,stop / linux,x86,stop), a per-type filter assignment, a flag subset, optionally the tuning variables the test suite "
+              "uses for that snapshot, a readdir order (sorted, or a seeded permutation in 1/4 of the ops) and a removal set of 0 (1/4), 1-3 (1/2) "
+              "or 4-40 (1/4) removable paths (regular files, symlinks, directories whose name does not end in a digit) that are renamed away "
+              "for the duration of the loads and always put back; oracles per op: load returns 0 or -1 (after -1 the untouched snapshot must "
+              "load on a fresh topology), WF + read-only battery, second load byte-identical in the canonical dump, INCLUDE_DISALLOWED view "
+              "contains every PU/NUMA node of the default view and its allowed sets equal the default root sets, the topology reloaded from "
+              "its own XML export (same flags, all types kept) has the same projected dump; sanitizer reports, assertions, leaks and step-budget "
+              "overruns are judged by the runner. counters.snap_loads = hwloc_topology_load calls on snapshots. distinct_nontrivial = distinct "
+              "(snapshot, component selection, filters, flags, env, readdir seed, set of paths actually removed, canonical dump of the result | "
+              "clean failure) tuples; a run is trivial when all its tuples were seen before. A removal that makes hwloc reject the CPUID dump "
+              "directory makes the x86 back-end execute the host's CPUID instruction: such loads are judged by return value, WF and battery only "
+              "and nothing of their result enters the event log (probe snap_cpuid_dump_rejected_host_cpuid_used). thorough tier only: snap_enum ops "
+              "sweep, a chunk per op, ALL single and pairwise removals under sys/devices/system of the snapshots with fewer than 400 removable "
+              "paths there (return value, reload after failure, WF + battery); the swept part is reported in coverage.fault_enumeration "
+              "(done/space per snapshot class, exhaustive = every element of the space was executed in this batch)")
+    c.real_components = ["hwloc/topology-linux.c, topology-x86.c, topology-hardwired.c, pci-common.c, components.c, topology.c and the rest of "
+                         "hwloc compiled from the /repo working tree (ASan+UBSan, asserts on): real discovery code",
+                         "files: the bundled tarballs of tests/hwloc/{linux,x86,x86+linux} extracted per worker process on tmpfs; real "
+                         "open/openat/read/readlink/stat on real files; removal = real rename() out of the tree and back",
+                         "libc, libxml2 (XML restart)"]
+    c.stubbed_components = ["readdir ORDER: decided by the simulator (entries of every directory are drained, then served sorted by name or in "
+                            "a permutation seeded by the plan; hwsim/topo/fswrap.cc under --wrap=readdir,closedir,rewinddir); entries themselves are real",
+                            "the kernel: absent; the snapshots replace sysfs/procfs (HWLOC_FSROOT) and the CPUID instruction (HWLOC_CPUID_PATH); "
+                            "HWLOC_COMPONENTS always ends in 'stop' so no other back-end (pci, opencl, ...) looks at the host"]
+    c.assumptions = ASSUME + ["removal sets are sampled (<= 40 paths); only the single/pairwise removals under sys/devices/system of the small snapshots are enumerated, in the thorough tier",
+                              "equality of the results under different readdir orders is not an oracle (any order is legal kernel behaviour; gp_index and I/O sibling "
+                              "order follow it); it is measured by probes snap_order_compared / snap_order_changes_result",
+                              "component selections without 'stop', and selections whose back-end would read the host (x86 on a Linux-only snapshot, linux on a CPUID dump) are not used",
+                              "allocator failure and read errors (EIO, short reads) are not injected: the statement names removal only"]
+    base_execute = c.execute
+
+    def execute():
+        rc = base_execute()
+        path = os.path.join(os.environ.get("HWSIM_EVIDENCE_DIR", os.path.join(os.path.dirname(os.path.dirname(os.path.abspath(__file__))), "evidence")), "C18.json")
+        try:
+            with open(path) as f:
+                ev = json.load(f)
+            cov = ev["coverage"]
+            cnt = cov.get("counters", {})
+        except (OSError, ValueError, KeyError):
+            return rc
+        space = {}
+        for k in list(cnt):
+            m = re.match(r"enumspace\.(.+)\.(\d+)$", k)
+            if m:
+                space[m.group(1)] = int(m.group(2))
+                del cnt[k]
+        ds = cov.get("distinct_sets", {})
+        s1 = sum(space.values())
+        s2 = sum(n * (n - 1) // 2 for n in space.values())
+        d1 = ds.get("enum_single", {}).get("count", 0)
+        d2 = ds.get("enum_pair", {}).get("count", 0)
+        cov["fault_enumeration"] = {
+            "what": "removals under sys/devices/system of the snapshots with < 400 removable paths there that were reached in this batch",
+            "snapshots": space,
+            "single": {"space": s1, "distinct_done": d1, "exhaustive": bool(space) and d1 == s1},
+            "pairwise": {"space": s2, "distinct_done": d2, "exhaustive": bool(space) and d2 == s2},
+        }
+        with open(path, "w") as f:
+            json.dump(ev, f, indent=1, sort_keys=False)
+            f.write("\n")
+        if tier == "thorough":
+            c.log("fault enumeration: single %d/%d, pairwise %d/%d over %d small snapshots" % (d1, s1, d2, s2, len(space)))
+        return rc
+
+    c.execute = execute
+    return c
+
+
+CHECKS = {"C18": c18, "C06": c06, "C09": c09, "C19": c19, "C16": c16, "C13": c13, "C14": c14, "C15": c15, "C05": c05, "C12": c12, "C01": c01, "C02": c02, "C03": c03, "C04": c04, "C08": c08, "C10": c10}
 
 
 # ------------------------------------------------------------------------------------------------ C17 (scheduler machine)
